@@ -245,6 +245,11 @@ func (vertex *Vertex) Validate() error {
 	if vertex.Label == "" {
 		return errors.New("'label' cannot be blank")
 	}
+	for _, s := range []string{vertex.ID, vertex.Label, vertex.From, vertex.To} {
+		if err := gripql.ValidateIdentifier(s); err != nil {
+			return fmt.Errorf("'gid', 'label', 'from' and 'to' %v", err)
+		}
+	}
 	for k := range vertex.Data {
 		err := gripql.ValidateFieldName(k)
 		if err != nil {
